@@ -1531,6 +1531,10 @@ class ApplicationServiceAccessPoint(ApplicationServiceElement, ServiceAccessPoin
             except Exception as err:
                 ApplicationServiceAccessPoint._exception("complex ack decoding error: %r", err)
                 xpdu = Error(errorClass=7, errorCode=57)  # communication, invalidTag
+                xpdu.pduSource = apdu.pduSource
+                xpdu.pduUserData = apdu.pduUserData
+                xpdu.apduInvokeID = apdu.apduInvokeID
+                xpdu.apduService = apdu.apduService
 
         elif isinstance(apdu, ErrorPDU):
             atype = error_types.get(apdu.apduService)
@@ -1544,6 +1548,10 @@ class ApplicationServiceAccessPoint(ApplicationServiceElement, ServiceAccessPoin
             except Exception as err:
                 ApplicationServiceAccessPoint._exception("error PDU decoding error: %r", err)
                 xpdu = Error(errorClass=0, errorCode=0)
+                xpdu.pduSource = apdu.pduSource
+                xpdu.pduUserData = apdu.pduUserData
+                xpdu.apduInvokeID = apdu.apduInvokeID
+                xpdu.apduService = apdu.apduService
 
         elif isinstance(apdu, RejectPDU):
             xpdu = apdu
